@@ -45,6 +45,17 @@ BOX = 10
 _STATE = {"margin": False, "const_cache": {}}
 
 
+def _rat(x):
+    """LAPACK result entry as an exact rational: the float itself (dyadic), or - when the float is within 1e-15
+    relative of a rational with a denominator <= 10^4 (inverses of small integer matrices) - that rational.
+    Keeps the coefficients of the path conditions short; the change is far below the decision margin."""
+    f = Fraction(float(x))
+    r = f.limit_denominator(10 ** 4)
+    if r != 0 and abs(r - f) <= abs(f) * Fraction(1, 10 ** 15):
+        return r
+    return f
+
+
 def _lift(X, b):
     """X (concrete matrix) times b (vector that may hold proxies) as simplified z3 terms"""
     X = np.asarray(X, dtype=float)
@@ -52,7 +63,7 @@ def _lift(X, b):
     out = np.empty(X.shape[0], dtype=object)
     bt = [V.to_real_term(e) for e in b]
     for i in range(X.shape[0]):
-        terms = [V.rval(X[i, j]) * bt[j] for j in range(X.shape[1]) if X[i, j] != 0.0]
+        terms = [V.rval(_rat(X[i, j])) * bt[j] for j in range(X.shape[1]) if X[i, j] != 0.0]
         t = z3.simplify(z3.Sum(terms)) if terms else z3.RealVal(0)
         if z3.is_rational_value(t):
             out[i] = np.float64(float(Fraction(t.numerator_as_long(), t.denominator_as_long())))
@@ -247,7 +258,16 @@ def _and(a, b):
 
 
 def _abs_le(x, t):
+    x = _simp(x)
     return _and(x <= t, x >= -t)
+
+
+def _simp(x):
+    """normal form (sum of monomials) of a symbolic term: a residual such as A (A^-1 b) - b collapses to a linear form
+    with rounding-size coefficients"""
+    if isinstance(x, V.SymReal):
+        return V.SymReal(z3.simplify(x.t, som=True))
+    return x
 
 
 def kkt(A, b, s, tau, prefix, Aout, Eout):
@@ -259,7 +279,7 @@ def kkt(A, b, s, tau, prefix, Aout, Eout):
         for j in range(n):
             if A[i][j] != 0:
                 acc = acc + float(A[i][j]) * s[j]
-        g.append(acc)
+        g.append(_simp(acc))
     nonneg, stat, dual = True, True, True
     for i in range(n):
         nonneg = _and(nonneg, s[i] >= 0)
@@ -314,8 +334,33 @@ def body_solver(inp, A, mode):
 
 
 def _box(ctx, arr):
+    ctx.box_terms = []
     for e in np.asarray(arr, dtype=object).reshape(-1):
-        ctx.assume(z3.And(e.t >= -BOX, e.t <= BOX))
+        c = z3.And(e.t >= -BOX, e.t <= BOX)
+        ctx.box_terms.append(c)
+        ctx.assume(c)
+
+
+def _check_box_first(ctx, key, actual, expected):
+    """an obligation that does not depend on the path (residual of the unconstrained solve): first decided under the
+    box constraints alone (dropping path constraints only weakens the hypotheses - sound for 'holds'); anything
+    else than unsat falls back to the ordinary check under the full path condition"""
+    terms = hx.eq_terms(actual, expected)
+    zs = [t for t in terms if not isinstance(t, (bool, np.bool_))]
+    if any(isinstance(t, (bool, np.bool_)) and not t for t in terms) or not zs:
+        return ctx.check(key, terms)
+    slv = z3.SolverFor("QF_LRA")
+    slv.set("timeout", 10000)
+    slv.add(*ctx.box_terms)
+    slv.add(z3.Not(z3.And(*zs)))
+    ctx.stats.queries += 1
+    try:
+        r = str(slv.check())
+    except z3.Z3Exception:
+        r = "unknown"
+    if r == "unsat":
+        return ctx.check(key, True)
+    return ctx.check(key, terms)
 
 
 def _known(key_regions):
@@ -452,32 +497,46 @@ def case_unconstrained(ctx, A, ranges, force):
 
 # ---------------------------------------------------------------------------------------------------------------
 # level 3: aa.Inversion on a small real imaging dataset: concrete mask / PSF / noise-map / linear objects, so F+H is
-# concrete; the image values (hence the data vector D) are solver variables.
+# concrete; image values (hence the data vector D) are solver variables.
 
-FRAME = 7
-NOISE_3x3 = [[1.0, 2.0, 1.0], [0.5, 1.0, 2.0], [1.0, 1.0, 4.0]]
-PSF = [[0.0, 0.5, 0.0], [0.5, 1.0, 0.5], [0.0, 0.25, 0.0]]
+PSF = [[0.0, 1.0, 0.0], [1.0, 4.0, 1.5], [0.0, 0.5, 0.0]]          # sums to 8: the normalised kernel is dyadic
+NOISE_CYCLE = [1.0, 2.0, 1.0, 0.5, 1.0, 2.0, 1.0, 1.0, 4.0]        # per unmasked pixel (repeated), dyadic
+DATA_BASE = [0.5, -1.0, 2.0, -0.25, 1.0, 0.5, -2.0, 0.75, -0.5, 1.5, -0.75, 0.25, -1.5, 1.0, -0.5, 2.0, 0.5, -1.0, 0.25, -2.0]
 FUNC_M1 = [[1, 0], [1, 1], [0, 1], [2, 0], [1, 1], [0, 2], [1, 0], [0, 0], [0, 1]]      # two correlated profiles
 FUNC_M2 = [[1], [0], [1], [0], [3], [0], [1], [0], [1]]
 DIAG_ADD = 2.0 ** -10
+SUB_SIZE = 2             # over-sampling of the mapper: fractional mapping-matrix entries / data weights
 
 
-def _dataset_pieces(data):
+def _full_data(inp, region, sym):
+    """image values on the unmasked region: concrete base pattern (signed, noise-like) with the entries listed in
+    `sym` replaced by the (symbolic) inputs"""
+    n = region[0] * region[1]
+    vals = list(np.asarray(inp["data"], dtype=object).reshape(-1))
+    data = [np.float64(DATA_BASE[k % len(DATA_BASE)]) for k in range(n)]
+    for v, k in zip(vals, sym):
+        data[k] = v
+    return data
+
+
+def _dataset_pieces(data, region):
     import autoarray as aa
-    mask_arr = np.ones((FRAME, FRAME), dtype=bool)
-    mask_arr[2:5, 2:5] = False
+    R, C = region
+    Hh, Ww = R + 4, C + 4
+    mask_arr = np.ones((Hh, Ww), dtype=bool)
+    mask_arr[2:2 + R, 2:2 + C] = False
     mask = aa.Mask2D(mask=mask_arr, pixel_scales=(1.0, 1.0))
     sym = any(V.is_sym(e) for e in data)
-    data2d = np.zeros((FRAME, FRAME), dtype=object if sym else float)
+    data2d = np.zeros((Hh, Ww), dtype=object if sym else float)
     if sym:
         data2d.fill(np.float64(0.0))
+    noise2d = np.ones((Hh, Ww))
     k = 0
-    for y in range(2, 5):
-        for x in range(2, 5):
+    for y in range(2, 2 + R):
+        for x in range(2, 2 + C):
             data2d[y, x] = data[k]
+            noise2d[y, x] = NOISE_CYCLE[k % len(NOISE_CYCLE)]
             k += 1
-    noise2d = np.ones((FRAME, FRAME))
-    noise2d[2:5, 2:5] = np.array(NOISE_3x3)
     dataset = aa.Imaging(
         data=aa.Array2D.no_mask(values=data2d, pixel_scales=1.0),
         noise_map=aa.Array2D.no_mask(values=noise2d, pixel_scales=1.0),
@@ -487,7 +546,7 @@ def _dataset_pieces(data):
     return aa, mask, mask_arr, noise2d, dataset
 
 
-def _linear_objs(aa, mask, dataset, objs):
+def _linear_objs(aa, mask, dataset, objs, mesh):
     if objs == "funcs":
         class Lin(aa.AbstractLinearObjFuncList):
             def __init__(self, grid, M):
@@ -504,8 +563,8 @@ def _linear_objs(aa, mask, dataset, objs):
 
         grid = dataset.grids.uniform
         return [Lin(grid, FUNC_M1), Lin(grid, FUNC_M2)], [None, None]
-    shape = {"rect33": (3, 3), "rect35": (3, 5), "rect44": (4, 4)}[objs]
-    os_ = aa.OverSamplerUniform(mask=mask, sub_size=1)
+    shape = tuple(mesh)
+    os_ = aa.OverSamplerUniform(mask=mask, sub_size=SUB_SIZE)
     grid = os_.over_sampled_grid
     mesh_grid = aa.Mesh2DRectangular.overlay_grid(grid=grid, shape_native=shape)
     mg = aa.MapperGrids(mask=mask, source_plane_data_grid=grid, source_plane_mesh_grid=mesh_grid,
@@ -515,14 +574,14 @@ def _linear_objs(aa, mask, dataset, objs):
     return [mapper], [shape]
 
 
-def _reference_system(mask_arr, noise2d, lin_objs, shapes, data):
+def _reference_system(mask_arr, noise2d, lin_objs, data):
     """F, H, D and the blurred mapping matrices from their definitions (numpy/scipy, a few lines)"""
     from scipy.signal import convolve2d
     un = ~mask_arr
     psf = np.array(PSF) / np.sum(PSF)
     sig = noise2d[un]
     Bs, Hs, noreg = [], [], []
-    for obj, shp in zip(lin_objs, shapes):
+    for obj in lin_objs:
         M = np.array(hx.unwrap(obj.mapping_matrix), dtype=float)
         B = np.zeros_like(M)
         for j in range(M.shape[1]):
@@ -538,13 +597,14 @@ def _reference_system(mask_arr, noise2d, lin_objs, shapes, data):
             noreg.append(False)
     B = np.hstack(Bs)
     n = B.shape[1]
-    Aref = (B / sig[:, None]).T @ (B / sig[:, None])
+    Fref = (B / sig[:, None]).T @ (B / sig[:, None])
+    Href = np.zeros((n, n))
     off = 0
     for Bk, Hk, nr in zip(Bs, Hs, noreg):
         p = Bk.shape[1]
-        Aref[off:off + p, off:off + p] += Hk
+        Href[off:off + p, off:off + p] += Hk
         if nr:
-            Aref[off:off + p, off:off + p] += DIAG_ADD * np.eye(p)
+            Fref[off:off + p, off:off + p] += DIAG_ADD * np.eye(p)
         off += p
     Dref = []
     for i in range(n):
@@ -553,7 +613,7 @@ def _reference_system(mask_arr, noise2d, lin_objs, shapes, data):
             if B[k, i] != 0.0:
                 acc = acc + float(B[k, i] / sig[k] ** 2) * data[k]
         Dref.append(acc)
-    return Bs, Aref, Dref
+    return Bs, Fref, Href, Dref
 
 
 def _edge_ids(shape):
@@ -561,24 +621,46 @@ def _edge_ids(shape):
     return [r * cols + c for r in range(rows) for c in range(cols) if r in (0, rows - 1) or c in (0, cols - 1)]
 
 
-def body_inversion(inp, objs, w_tilde, positive, warm, edge, history):
-    data = list(np.asarray(inp["data"], dtype=object).reshape(-1))
-    aa, mask, mask_arr, noise2d, dataset = _dataset_pieces(data)
-    lin_objs, shapes = _linear_objs(aa, mask, dataset, objs)
-    Bs, Aref, Dref = _reference_system(mask_arr, noise2d, lin_objs, shapes, data)
+def _forced_ids(shapes, edge, zero_pixels, lin_objs):
+    """parameters the settings force to zero: mesh pixels on the outer ring of the rectangular mesh and (if image
+    pixels are listed) every mesh pixel one of those image pixels maps to"""
+    if not edge or shapes[0] is None:
+        return []
+    forced = set(_edge_ids(shapes[0]))
+    if zero_pixels:
+        M = np.array(hx.unwrap(lin_objs[0].mapping_matrix), dtype=float)
+        for j in range(M.shape[1]):
+            if any(M[k, j] != 0.0 for k in zero_pixels):
+                forced.add(j)
+    return sorted(forced)
+
+
+def _setup_inversion(inp, region, sym, objs, mesh):
+    data = _full_data(inp, region, sym)
+    aa, mask, mask_arr, noise2d, dataset = _dataset_pieces(data, region)
+    lin_objs, shapes = _linear_objs(aa, mask, dataset, objs, mesh)
+    Bs, Fref, Href, Dref = _reference_system(mask_arr, noise2d, lin_objs, data)
+    return aa, dataset, lin_objs, shapes, Bs, Fref, Href, Dref
+
+
+def body_inversion(inp, region, sym, objs, mesh, w_tilde, positive, warm, edge, history, zero_pixels=None):
+    aa, dataset, lin_objs, shapes, Bs, Fref, Href, Dref = _setup_inversion(inp, region, sym, objs, mesh)
+    Aref = Fref + Href
     n = Aref.shape[0]
     settings = aa.SettingsInversion(use_w_tilde=w_tilde, use_positive_only_solver=positive,
                                     positive_only_uses_p_initial=warm, force_edge_pixels_to_zeros=edge,
-                                    no_regularization_add_to_curvature_diag_value=DIAG_ADD)
+                                    no_regularization_add_to_curvature_diag_value=DIAG_ADD,
+                                    force_edge_image_pixels_to_zeros=bool(zero_pixels),
+                                    image_pixels_source_zero=list(zero_pixels) if zero_pixels else None)
     Aout, Eout = {}, {}
     preloads = None
     if history:
-        Fref = Aref.copy()
-        Fref[:, :] -= np.array(lin_objs[0].regularization.regularization_matrix_from(linear_obj=lin_objs[0]), dtype=float)
-        preloads = aa.Preloads(curvature_matrix=Fref.copy())
-    forced = []
-    if positive and edge and shapes[0] is not None:
-        forced = _edge_ids(shapes[0])
+        # the dataset's curvature matrix preloaded once and re-used by successive inversions (the purpose of Preloads);
+        # on proxies the array has to be able to take the object-dtype regularization matrix in the repo's `F += H`
+        from symx import shim
+        symbolic = any(V.is_sym(e) for e in np.asarray(inp["data"], dtype=object).reshape(-1))
+        preloads = aa.Preloads(curvature_matrix=shim.as_obj(Fref.copy()) if symbolic else Fref.copy())
+    forced = _forced_ids(shapes, edge and positive, zero_pixels, lin_objs)
     free = [i for i in range(n) if i not in forced]
     tau = _tau()
     for run in range(max(1, history)):
@@ -649,9 +731,6 @@ def body_inversion(inp, objs, w_tilde, positive, warm, edge, history):
         else:
             Aout[tag + "mapped_data_sum_to_total"] = tot
             Eout[tag + "mapped_data_sum_to_total"] = "a vector"
-    if preloads is not None:
-        Aout["preloaded_curvature_matrix_unchanged"] = np.array(preloads.curvature_matrix, dtype=float)
-        Eout["preloaded_curvature_matrix_unchanged"] = Fref
     return Aout, Eout
 
 
@@ -665,7 +744,8 @@ class _AllBut:
         return True
 
     def __contains__(self, k):
-        return self.marker not in k
+        ms = self.marker if isinstance(self.marker, tuple) else (self.marker,)
+        return not any(m in k for m in ms)
 
 
 def _check_linear_in_solution(ctx, key, actual, expected, sol, tol=1e-9):
@@ -699,21 +779,50 @@ def _check_linear_in_solution(ctx, key, actual, expected, sol, tol=1e-9):
 
 
 def case_inversion(ctx, **cfg):
-    data = V.real_array("data", (9,))
+    data = V.real_array("data", (len(cfg["sym"]),))
     _box(ctx, data)
     ctx.set_case(**cfg)
     known = None
+    if cfg["positive"] and cfg["warm"]:
+        # region of the recorded warm-start defect, expressed on the reference (reduced) system of this dataset
+        with shim_native():
+            aa, dataset, lin_objs, shapes, Bs, Fref, Href, Dref0 = _setup_inversion(
+                {"data": [0.0] * len(cfg["sym"])}, cfg["region"], cfg["sym"], cfg["objs"], cfg["mesh"])
+        n = Fref.shape[0]
+        forced = _forced_ids(shapes, cfg["edge"], cfg.get("zero_pixels"), lin_objs)
+        free = [i for i in range(n) if i not in forced]
+        full = _full_data({"data": data}, cfg["region"], cfg["sym"])
+        B = np.hstack(Bs)
+        sig = np.array([NOISE_CYCLE[k % len(NOISE_CYCLE)] for k in range(B.shape[0])])
+        Dref = []
+        for i in free:
+            acc = 0.0
+            for k in range(B.shape[0]):
+                if B[k, i] != 0.0:
+                    acc = acc + float(B[k, i] / sig[k] ** 2) * full[k]
+            Dref.append(acc)
+        Aref = (Fref + Href)[np.ix_(free, free)]
+        reg = _warm_region(Aref.tolist(), Dref)
+        tags = [""] if not cfg["history"] else ["inversion%d_" % (r + 1) for r in range(cfg["history"])]
+        known = _known({t + k: {"warm-start-not-optimal": reg} for t in tags for k in KKT_KEYS + ("returns_a_solution",)})
     _STATE["margin"] = True
     try:
         actual, expected = hx.run_body(ctx, body_inversion, {"data": data}, cfg, validate_every=1, known=known,
-                                       only=_AllBut("mapped_data"))
+                                       only=_AllBut(("mapped_data", "solves_or_raises")))
         for k in expected:
+            if "solves_or_raises" in k:
+                _check_box_first(ctx, k, actual.get(k), expected[k])
             if "mapped_data" in k:
                 tag = k[:k.index("mapped_data")]
                 sol = actual.get(tag + "solution")
                 _check_linear_in_solution(ctx, k, actual.get(k), expected[k], list(sol) if sol is not None else [])
     finally:
         _STATE["margin"] = False
+
+
+def shim_native():
+    from symx import shim
+    return shim.native()
 
 
 # ---------------------------------------------------------------------------------------------------------------
@@ -731,30 +840,73 @@ MATS3 = [
     [[4.0, 3.0, 2.0], [3.0, 4.0, 3.0], [2.0, 3.0, 4.0]],             # strongly correlated, Toeplitz
     [[2.0, -1.0, 1.0], [-1.0, 3.0, 0.5], [1.0, 0.5, 1.5]],           # mixed signs
 ]
+MATS4 = [
+    [[3.0, -1.0, 0.0, 0.0], [-1.0, 3.0, -1.0, 0.0], [0.0, -1.0, 3.0, -1.0], [0.0, 0.0, -1.0, 3.0]],     # 1x4 mesh
+    [[7.0, 6.0, 4.0, 8.0], [6.0, 12.0, 8.0, 6.0], [4.0, 8.0, 10.0, 11.0], [8.0, 6.0, 11.0, 19.0]],     # Z^T Z, correlated
+]
 
 BODIES = {"case_solver": body_solver, "case_unconstrained": body_unconstrained, "case_inversion": body_inversion}
-EXPLORER_OPTS = {"timeout_ms": 20000, "max_paths": 20000, "max_decisions": 120, "logic": "QF_NRA", "max_candidates": 3}
+EXPLORER_OPTS = {"timeout_ms": 20000, "max_paths": 20000, "max_decisions": 150, "logic": "QF_NRA", "max_candidates": 3}
 BUDGET_S = {"quick": 900, "thorough": 2300}
 
-BOUNDS = {"quick": "", "thorough": ""}
-OUTSIDE = []
-STUBS = []
-ASSUMPTIONS = []
+
+def _inv(region, sym, objs, mesh, w_tilde, positive, warm, edge, history=0, zero_pixels=None):
+    return {"region": list(region), "sym": list(sym), "objs": objs, "mesh": list(mesh) if mesh else None,
+            "w_tilde": w_tilde, "positive": positive, "warm": warm, "edge": edge, "history": history,
+            "zero_pixels": zero_pixels}
+
+
+ALL9 = list(range(9))
 
 
 def cases(tier):
     out = []
+    thorough = tier != "quick"
+    # --- the solver routine / its caller on concrete SPD matrices
     for A in MATS2:
         for mode in ("cold", "warm"):
             out.append(("case_solver", {"A": A, "mode": mode}))
     out.append(("case_solver", {"A": MATS2[1], "mode": "direct"}))
-    for A in MATS2[:3]:
-        out.append(("case_unconstrained", {"A": A, "ranges": [[0, 2]], "force": False}))
-    out.append(("case_unconstrained", {"A": MATS3[1], "ranges": [[0, 2], [2, 3]], "force": True}))
-    m3 = MATS3[:1] if tier == "quick" else MATS3
-    for A in m3:
+    for A in (MATS3 if thorough else MATS3[:2]):
         for mode in ("cold", "warm"):
-            out.append(("case_solver", {"A": A, "mode": mode}, {"split": 4}))
+            out.append(("case_solver", {"A": A, "mode": mode}))
+    if thorough:
+        out.append(("case_solver", {"A": MATS3[0], "mode": "direct"}))
+        for A in MATS4:
+            for mode in ("cold", "warm"):
+                out.append(("case_solver", {"A": A, "mode": mode}, {"split": 4}))
+    # --- unconstrained solver
+    lin = {}
+    for A in MATS2[:3]:
+        out.append(("case_unconstrained", {"A": A, "ranges": [[0, 2]], "force": False}, lin))
+    out.append(("case_unconstrained", {"A": MATS3[1], "ranges": [[0, 2], [2, 3]], "force": True}, lin))
+    if thorough:
+        for A in MATS3:
+            out.append(("case_unconstrained", {"A": A, "ranges": [[0, 3]], "force": False}, lin))
+    # --- aa.Inversion: unconstrained (all 9 image values symbolic)
+    for wt in (False, True):
+        out.append(("case_inversion", _inv((3, 3), ALL9, "rect", (3, 5), wt, False, False, False), lin))
+    out.append(("case_inversion", _inv((3, 3), ALL9, "funcs", None, False, False, False, False), lin))
+    out.append(("case_inversion", _inv((3, 3), ALL9, "rect", (3, 3), False, False, False, False, history=2), lin))
+    # --- aa.Inversion: positive-only solver (2-3 symbolic image values, the rest a fixed signed pattern)
+    sp = {"split": 2}
+    for warm in (False, True):
+        out.append(("case_inversion", _inv((3, 3), [3, 2, 4], "funcs", None, False, True, warm, False), sp))
+    # rectangular 3x5 mesh over 3x3 image pixels (sub-size 2: fractional weights); 12 edge pixels forced to zero, 3 free
+    out.append(("case_inversion", _inv((3, 3), [3, 4], "rect", (3, 5), False, True, False, True)))
+    out.append(("case_inversion", _inv((3, 3), [3, 4], "rect", (3, 5), True, True, True, True)))
+    out.append(("case_inversion", _inv((3, 3), [3, 4], "rect", (3, 5), False, True, False, True, history=2)))
+    out.append(("case_inversion", _inv((3, 3), [3, 4], "rect", (3, 5), True, True, True, True, zero_pixels=[5])))
+    if thorough:
+        for warm in (False, True):
+            out.append(("case_inversion", _inv((3, 3), [3, 2, 4], "funcs", None, False, True, warm, True), sp))
+            for wt in (False, True):
+                out.append(("case_inversion", _inv((3, 3), [3, 4, 5], "rect", (3, 5), wt, True, warm, True), sp))
+                out.append(("case_inversion", _inv((3, 4), [5, 6, 2], "rect", (3, 5), wt, True, warm, True), sp))
+            out.append(("case_inversion", _inv((3, 4), [5, 6], "rect", (3, 4), True, True, warm, True)))
+            out.append(("case_inversion", _inv((4, 4), [5, 6, 9, 10], "rect", (4, 4), True, True, warm, True), {"split": 4}))
+        out.append(("case_inversion", _inv((3, 3), [3, 4, 5], "rect", (3, 5), False, True, True, True, history=2), sp))
+        out.append(("case_inversion", _inv((3, 3), [3, 4, 5], "rect", (3, 5), False, True, False, True, zero_pixels=[4])))
     return out
 
 
